@@ -27,7 +27,7 @@ from vf.common import Ctx, Failure, Stats, drive, run_sharded, scratch_dir
 PROP = "C19"
 LEVEL = "exploration"
 RULE = (
-    "(1) Hypothesis path strings of 1-4 segments from a 41-segment pool (incl. ~ and $HOME spellings with HOME set to the outside tree) over a planted tree, absolute and relative to 2 cwds, x 9 entry "
+    "(1) Hypothesis path strings of 1-4 segments from a 41-segment pool (incl. ~ and $HOME spellings with HOME set to the outside tree) over a planted tree, absolute and relative to 2 cwds, x 12 entry "
     "points (octave_write content/changes/normalize/corrections_only, octave_validate file_path, atomic_write_octave, CLI write / "
     "normalize -o / seal -o). Oracle: a path with a '..' component, a symlink component (os.path.islink on any prefix, computed by the "
     "harness) or a disallowed extension => error, no open/create/replace/unlink boundary at all in the trace, both trees unchanged; "
@@ -103,7 +103,8 @@ def classify_path(pstr: str, cwd: str):
     return has_dd, has_link, bad_ext
 
 
-ENTRIES = ["write_content", "write_changes", "write_normalize", "write_dry", "validate_file", "atomic", "cli_write", "cli_normalize_o", "cli_seal_o"]
+ENTRIES = ["write_content", "write_changes", "write_normalize", "write_dry", "validate_file", "atomic", "cli_write", "cli_normalize_o", "cli_seal_o",
+           "write_content_bh", "write_changes_bh", "cli_write_bh"]
 
 
 def call_entry(entry, pstr, root):
@@ -114,6 +115,10 @@ def call_entry(entry, pstr, root):
             r = tools.write(target_path=pstr, content=DOC)
         elif entry == "write_changes":
             r = tools.write(target_path=pstr, changes={"K": "changed"})
+        elif entry == "write_content_bh":
+            r = tools.write(target_path=pstr, content=DOC, base_hash="0" * 64)
+        elif entry == "write_changes_bh":
+            r = tools.write(target_path=pstr, changes={"K": "changed"}, base_hash=hashlib.sha256(DOC.encode()).hexdigest())
         elif entry == "write_normalize":
             r = tools.write(target_path=pstr)
         elif entry == "write_dry":
@@ -125,7 +130,7 @@ def call_entry(entry, pstr, root):
 
             r = atomic_write_octave(pstr, DOC, None)
         else:
-            args = {"cli_write": ["write", pstr, "--content", DOC], "cli_normalize_o": ["normalize", src, "-o", pstr], "cli_seal_o": ["seal", src, "-o", pstr]}[entry]
+            args = {"cli_write": ["write", pstr, "--content", DOC], "cli_write_bh": ["write", pstr, "--content", DOC, "--base-hash", "0" * 64], "cli_normalize_o": ["normalize", src, "-o", pstr], "cli_seal_o": ["seal", src, "-o", pstr]}[entry]
             code, out, err, exc = tools.cli(args)
             if exc is not None:
                 return "raised:" + repr(exc), out + err
@@ -413,6 +418,50 @@ def frozen_and_uri(st: Stats):
                 rb = os.path.realpath(vb)
                 if not (real == rb or real.startswith(rb + os.sep)):
                     st.fail("C19:unlisted:source-uri-resolves-outside-base", {"kind": "uri", "uri": u, "base": base_path}, f"validate_source_uri({u!r}, {base_path!r}) returned {real}, outside {rb}")
+        # ---- the same SOURCE_URIs read from a hydrated document's manifest: check_staleness() and `octave hydrate --check
+        # --project-root` hash the file the URI names, so a URI whose real location is outside the allowed root must be answered
+        # with ERROR and without a hash (the hash of an outside file is a leak of its content)
+        from octave_mcp.core.hydrator import check_staleness
+        from octave_mcp.core.parser import parse as _parse
+
+        def hydrated(uri, h):
+            return ("===HYDRATED_DOC===\nMETA:\n  TYPE::\"SPEC\"\n  VERSION::\"1.0.0\"\n\n§CONTEXT::SNAPSHOT[\"@demo/vocabulary\"]\n  ALPHA::\"first\"\n\n§SNAPSHOT::MANIFEST\n"
+                    f"  SOURCE_URI::\"{uri}\"\n  SOURCE_HASH::\"{h}\"\n  HYDRATION_TIME::\"2024-01-01T00:00:00Z\"\n  REQUESTED_VERSION::\"unspecified\"\n  RESOLVED_VERSION::\"1.0.0\"\n\n===END===\n")
+
+        good_hash = "sha256:" + hashlib.sha256(good).hexdigest()
+        for allowed in (None, base):
+            rootreal = os.path.realpath(allowed or vb)
+            for u in uris:
+                if '"' in u or "\\" in u or "\x00" in u or "\n" in u:
+                    continue
+                real = os.path.realpath(os.path.join(vb, u))
+                outside = not (real == rootreal or real.startswith(rootreal + os.sep))
+                for claimed in ("sha256:" + "0" * 64, good_hash):
+                    st.evaluations += 1
+                    st.labels["staleness_uris"] += 1
+                    if outside:
+                        st.nontrivial_exact += 1
+                        st.labels["staleness_uri_outside_root"] += 1
+                    text = hydrated(u, claimed)
+                    case = {"kind": "staleness", "uri": u, "allowed": "parent" if allowed else "base", "hash": claimed[:12]}
+                    try:
+                        res = check_staleness(_parse(text), base_path=Path(vb), allowed_root=Path(allowed) if allowed else None)
+                    except Exception as e:  # noqa: BLE001 - a refusal
+                        res = []
+                        st.labels["staleness_raised_" + type(e).__name__] += 1
+                    for r in res:
+                        st.labels["staleness_answer_" + str(r.status)] += 1
+                        if outside and (r.status != "ERROR" or r.actual_hash is not None):
+                            st.fail("C19:unlisted:staleness-check-reads-outside-root", case,
+                                    f"check_staleness: SOURCE_URI {u!r} is really {real}, outside the allowed root {rootreal}, and is answered {r.status} actual_hash={r.actual_hash}")
+                    dp = os.path.join(vb, "hydrated.oct.md")
+                    with open(dp, "w", encoding="utf-8") as fh:
+                        fh.write(text)
+                    code, out, err, exc = tools.cli(["hydrate", dp, "--check", "--project-root", allowed or vb])
+                    os.unlink(dp)
+                    if outside and (code == 0 or "FRESH" in out or "STALE" in out):
+                        st.fail("C19:unlisted:cli-staleness-check-reads-outside-root", case,
+                                f"octave hydrate --check --project-root: SOURCE_URI {u!r} is really {real}, outside {rootreal}: exit={code} output={(out + err)[-200:]!r}")
         if len(st.samples) < 4:
             st.samples.append({"frozen_refs": refs[:4], "source_uris": uris[:6]})
 
